@@ -628,7 +628,7 @@ fn delete_window_strategy(thorough: bool) -> BoxedStrategy<ConcCase> {
     let injection = ((100u8..=255, (30u16..500).prop_map(Delay::SleepUs)), prop::collection::vec((extra_site, 30u8..=255, delay), 0..=3), any::<u64>())
         .prop_map(|((probability, worker_delay), mut sites, seed)| { sites.push((Site::WorkerAfterDequeue as u8, probability, worker_delay)); Injection { sites, seed: seed | 1 } });
     let cfg = (prop_oneof![Just(1usize), Just(2), Just(8)], 1usize..=2, 1usize..=4, prop_oneof![Just(HashMode::Identity), Just(HashMode::Default)])
-        .prop_map(|(cmd_buf, pool, buf, hash)| Cfg { counters: 1000, capacity: 16, max_weight: 4000, shards: 2, cmd_buf, pool, buf, tick_us: 500, hash, weight_mode: WeightMode::Table(vec![8, 11, 14, 17, 20]), start_ns: 0, noise_readers: 0 });
+        .prop_map(|(cmd_buf, pool, buf, hash)| Cfg { counters: 1000, capacity: 16, max_weight: 4000, shards: 2, cmd_buf, pool, buf, tick_us: 500, hash, weight_mode: WeightMode::Table(vec![8, 11, 14, 17, 20]), start_ns: 0, noise_readers: 0, prelude: None });
     (cfg, deleter, readers, injection).prop_map(|(cfg, deleter, readers, injection)| {
         let mut threads = vec![deleter];
         threads.extend(readers);
@@ -653,7 +653,7 @@ fn evict_vs_sweep_strategy(thorough: bool) -> BoxedStrategy<ConcCase> {
     let injection = ((120u8..=255, (100u16..800).prop_map(Delay::SleepUs)), prop::collection::vec((extra_site, 30u8..=255, delay), 0..=3), any::<u64>())
         .prop_map(|((probability, loop_delay), mut sites, seed)| { sites.push((Site::CreateSpaceLoop as u8, probability, loop_delay)); Injection { sites, seed: seed | 1 } });
     let cfg = (prop_oneof![Just(60i64), Just(80), Just(100), Just(150)], prop_oneof![Just(1usize), Just(4)], prop_oneof![Just(HashMode::Identity), Just(HashMode::Constant)], prop_oneof![Just(100u64), Just(300)])
-        .prop_map(|(max_weight, cmd_buf, hash, tick_us)| Cfg { counters: 1000, capacity: 16, max_weight, shards: 2, cmd_buf, pool: 1, buf: 4, tick_us, hash, weight_mode: WeightMode::Table(vec![8, 11, 14, 17, 20]), start_ns: 0, noise_readers: 0 });
+        .prop_map(|(max_weight, cmd_buf, hash, tick_us)| Cfg { counters: 1000, capacity: 16, max_weight, shards: 2, cmd_buf, pool: 1, buf: 4, tick_us, hash, weight_mode: WeightMode::Table(vec![8, 11, 14, 17, 20]), start_ns: 0, noise_readers: 0, prelude: None });
     let clock = prop::collection::vec((50u16..800, 200u32..1600).prop_map(|(pause_us, advance_ms)| ClockStep { pause_us, advance_ms }), 6..=(if thorough { 40 } else { 20 }));
     (cfg, threads, injection, clock).prop_map(|(cfg, threads, injection, clock)| ConcCase { cfg, threads, injection, clock, monitor: true, consumer: ConsumerMode::Free, sched: None }).boxed()
 }
@@ -672,7 +672,7 @@ fn put_contention_strategy(thorough: bool) -> BoxedStrategy<ConcCase> {
     let site = prop_oneof![Just(Site::PutAfterExistenceCheck as u8), Just(Site::UpsertAfterStoreUpdate as u8), Just(Site::WorkerAfterDequeue as u8), Just(Site::ReadAfterStore as u8), Just(Site::CacheWeightUpdateInEntry as u8), Just(Site::SendBefore as u8)];
     let injection = (prop::collection::vec((site, 20u8..=200, delay), 0..=3), any::<u64>()).prop_map(|(sites, seed)| Injection { sites, seed: seed | 1 });
     let cfg = (prop_oneof![Just(1usize), Just(4), Just(64)], prop_oneof![Just(HashMode::Identity), Just(HashMode::Default)])
-        .prop_map(|(cmd_buf, hash)| Cfg { counters: 1000, capacity: 16, max_weight: 4000, shards: 2, cmd_buf, pool: 2, buf: 4, tick_us: 1000, hash, weight_mode: WeightMode::Table(vec![8, 11, 14, 17, 20]), start_ns: 0, noise_readers: 0 });
+        .prop_map(|(cmd_buf, hash)| Cfg { counters: 1000, capacity: 16, max_weight: 4000, shards: 2, cmd_buf, pool: 2, buf: 4, tick_us: 1000, hash, weight_mode: WeightMode::Table(vec![8, 11, 14, 17, 20]), start_ns: 0, noise_readers: 0, prelude: None });
     (cfg, threads, injection).prop_map(|(cfg, threads, injection)| ConcCase { cfg, threads, injection, clock: Vec::new(), monitor: false, consumer: ConsumerMode::Free, sched: None }).boxed()
 }
 
@@ -695,7 +695,7 @@ fn sweep_race_strategy(thorough: bool) -> BoxedStrategy<ConcCase> {
     let injection = ((150u8..=255, (200u16..2500).prop_map(Delay::SleepUs)), prop::collection::vec((extra_site, 30u8..=255, delay), 0..=3), any::<u64>())
         .prop_map(|((probability, sweeper_delay), mut sites, seed)| { sites.push((Site::CacheWeightDeleteAfterRemove as u8, probability, sweeper_delay)); Injection { sites, seed: seed | 1 } });
     let cfg = (prop_oneof![Just(1usize), Just(8)], prop_oneof![Just(HashMode::Identity), Just(HashMode::Default)], prop_oneof![Just(100u64), Just(300)])
-        .prop_map(|(cmd_buf, hash, tick_us)| Cfg { counters: 1000, capacity: 16, max_weight: 4000, shards: 2, cmd_buf, pool: 1, buf: 4, tick_us, hash, weight_mode: WeightMode::Table(vec![8, 11, 14, 17, 20]), start_ns: 0, noise_readers: 0 });
+        .prop_map(|(cmd_buf, hash, tick_us)| Cfg { counters: 1000, capacity: 16, max_weight: 4000, shards: 2, cmd_buf, pool: 1, buf: 4, tick_us, hash, weight_mode: WeightMode::Table(vec![8, 11, 14, 17, 20]), start_ns: 0, noise_readers: 0, prelude: None });
     let clock = prop::collection::vec((50u16..600, 300u32..1400).prop_map(|(pause_us, advance_ms)| ClockStep { pause_us, advance_ms }), 8..=(if thorough { 60 } else { 30 }));
     (cfg, threads, injection, clock).prop_map(|(cfg, threads, injection, clock)| ConcCase { cfg, threads, injection, clock, monitor: true, consumer: ConsumerMode::Free, sched: None }).boxed()
 }
@@ -715,7 +715,7 @@ fn sched_strategy(thorough: bool) -> BoxedStrategy<ConcCase> {
     let threads = prop::collection::vec(prop::collection::vec(op, 2..=(if thorough { 10 } else { 7 })), 2..=3);
     let plan = (prop::collection::vec(any::<u8>(), 8), prop::collection::vec(1u16..120, 0..=4)).prop_map(|(priorities, change_points)| SchedPlan { priorities, change_points });
     let cfg = (prop_oneof![Just(30i64), Just(4000)], prop_oneof![Just(1usize), Just(8)], prop_oneof![Just(HashMode::Identity), Just(HashMode::Constant)])
-        .prop_map(|(max_weight, cmd_buf, hash)| Cfg { counters: 100, capacity: 16, max_weight, shards: 2, cmd_buf, pool: 1, buf: 2, tick_us: 200, hash, weight_mode: WeightMode::Table(vec![8, 11, 14, 17, 20]), start_ns: 0, noise_readers: 0 });
+        .prop_map(|(max_weight, cmd_buf, hash)| Cfg { counters: 100, capacity: 16, max_weight, shards: 2, cmd_buf, pool: 1, buf: 2, tick_us: 200, hash, weight_mode: WeightMode::Table(vec![8, 11, 14, 17, 20]), start_ns: 0, noise_readers: 0, prelude: None });
     (cfg, threads, plan).prop_map(|(cfg, threads, plan)| ConcCase { cfg, threads, injection: Injection { sites: Vec::new(), seed: 1 }, clock: Vec::new(), monitor: false, consumer: ConsumerMode::Free, sched: Some(plan) }).boxed()
 }
 
@@ -748,7 +748,7 @@ fn tight_fit_strategy(thorough: bool) -> BoxedStrategy<ConcCase> {
         let injection = (prop::collection::vec((site, 40u8..=255, delay), 0..=4), any::<u64>()).prop_map(|(sites, seed)| Injection { sites, seed: seed | 1 });
         let clock = prop::collection::vec((50u16..800, 200u32..1600).prop_map(|(pause_us, advance_ms)| ClockStep { pause_us, advance_ms }), 4..=20);
         let cfg = (prop_oneof![Just(1usize), Just(4), Just(64)], prop_oneof![Just(HashMode::Identity), Just(HashMode::Default), Just(HashMode::Constant)], prop_oneof![Just(100u64), Just(300)], prop_oneof![Just(2u64), Just(10), Just(1000)])
-            .prop_map(move |(cmd_buf, hash, tick_us, counters)| Cfg { counters, capacity: 16, max_weight: (0..universe).map(base_weight).sum(), shards: 2, cmd_buf, pool: 1, buf: 2, tick_us, hash, weight_mode: WeightMode::Table(vec![8, 11, 14, 17, 20]), start_ns: 0, noise_readers: 0 });
+            .prop_map(move |(cmd_buf, hash, tick_us, counters)| Cfg { counters, capacity: 16, max_weight: (0..universe).map(base_weight).sum(), shards: 2, cmd_buf, pool: 1, buf: 2, tick_us, hash, weight_mode: WeightMode::Table(vec![8, 11, 14, 17, 20]), start_ns: 0, noise_readers: 0, prelude: None });
         (cfg, Just(owner), others, injection, clock).prop_map(|(cfg, owner, others, injection, clock)| {
             let mut threads = vec![owner];
             threads.extend(others);
@@ -780,7 +780,7 @@ pub fn conc_case_strategy(profile: ConcProfile, thorough: bool) -> BoxedStrategy
     let cfg = (limits, prop_oneof![Just(1usize), Just(2), Just(3), Just(8)], 1usize..=3, 1usize..=4, prop_oneof![Just(HashMode::Identity), Just(HashMode::Default), Just(HashMode::Constant), Just(HashMode::Mod2)], prop_oneof![Just(200u64), Just(500), Just(1000)], prop_oneof![Just(10u64), Just(4), Just(1000)])
         .prop_map(move |(max_weight, cmd_buf, pool, buf, hash, tick_us, counters)| {
             let (pool, buf) = if profile == ConcProfile::Reads { ([1usize, 2, 3, 32][pool % 4], [1usize, 2, 3, 64][buf % 4]) } else if profile == ConcProfile::Deadlock { (1, 1) } else { (pool, buf) };
-            Cfg { counters, capacity: 16, max_weight, shards: 2, cmd_buf: if profile == ConcProfile::Deadlock { 1 } else { cmd_buf }, pool, buf, tick_us, hash, weight_mode: WeightMode::Table(vec![8, 11, 14, 17, 20]), start_ns: 0, noise_readers: 0 }
+            Cfg { counters, capacity: 16, max_weight, shards: 2, cmd_buf: if profile == ConcProfile::Deadlock { 1 } else { cmd_buf }, pool, buf, tick_us, hash, weight_mode: WeightMode::Table(vec![8, 11, 14, 17, 20]), start_ns: 0, noise_readers: 0, prelude: None }
         });
     let clock = match profile {
         ConcProfile::Reads | ConcProfile::Bursts => Just(Vec::new()).boxed(),
